@@ -38,6 +38,21 @@ pub fn build_pass_1(
 
         let (current_end_offset, current_offset, items) =
             pass_1_internal(&segment, offset, common_context)?;
+
+        // a segment that cannot fit is refused here, before any image is built for it
+        let capacity = match segment.t {
+            SegmentType::Code => device.flash_size as u64,
+            SegmentType::Data => device.ram_start as u64 + device.ram_size as u64,
+            SegmentType::Eeprom => device.eeprom_size as u64,
+        };
+        if current_end_offset as u64 > capacity {
+            bail!(
+                "{} segment size overdue: it ends at {} of {}",
+                segment.t,
+                current_end_offset,
+                capacity
+            );
+        }
         segments.push(Segment {
             items,
             t: segment.t,
@@ -143,7 +158,13 @@ fn pass_1_internal(
             },
             Item::ReserveData(size) => match segment.t {
                 SegmentType::Data | SegmentType::Eeprom => {
-                    cur_address += *size as u32;
+                    cur_address = match u32::try_from(*size)
+                        .ok()
+                        .and_then(|size| cur_address.checked_add(size))
+                    {
+                        Some(address) => address,
+                        None => bail!(".byte size is out of range, {}", line),
+                    };
                     if segment.t == SegmentType::Eeprom {
                         out_items.push((*line, item.clone()));
                     }
